@@ -24,6 +24,41 @@ type G struct {
 	Thorough bool
 	Scale    int // 1 normally; raised while searching for a witness
 	ops      []string
+	gens     []genReq
+}
+
+type genReq struct {
+	line string
+	mk   func(out string) []string
+}
+
+// EmitGen asks the Lean driver to produce an input first (e.g. the specification's
+// rendering of a document model under a layout); mk turns the driver's answer into the
+// operation lines that are then run on implementation and model.
+func (g *G) EmitGen(mk func(out string) []string, op string, args ...string) {
+	g.gens = append(g.gens, genReq{line: op + " " + strings.Join(args, " "), mk: mk})
+}
+
+func (g *G) resolveGens() error {
+	if len(g.gens) == 0 {
+		return nil
+	}
+	lines := make([]string, len(g.gens))
+	for i, r := range g.gens {
+		lines[i] = r.line
+	}
+	outs, err := RunDriver(lines)
+	if err != nil {
+		return err
+	}
+	for i, r := range g.gens {
+		if outs[i] == "bad-op" {
+			return fmt.Errorf("driver rejected generator line %q", clip(r.line, 200))
+		}
+		g.ops = append(g.ops, r.mk(outs[i])...)
+	}
+	g.gens = nil
+	return nil
 }
 
 // N picks a case count for the tier.
@@ -457,6 +492,9 @@ func Run(p *Property, o Options) int {
 				g.ops = append(g.ops, loadCorpus(root, p.ID, s.Name)...)
 			}
 			s.Gen(g)
+			if err := g.resolveGens(); err != nil {
+				return err
+			}
 			var st *streamStats
 			var seen map[string]bool
 			if record {
